@@ -3,6 +3,7 @@ package main
 import (
 	"encoding/json"
 
+	"github.com/xjslang/xjs/ast"
 	"github.com/xjslang/xjs/lexer"
 	"github.com/xjslang/xjs/parser"
 	"github.com/xjslang/xjs/token"
@@ -48,6 +49,29 @@ type compiled struct {
 	Map   map[string]any `json:"map,omitempty"`
 	Ops   []wop          `json:"ops,omitempty"`
 	Panic string         `json:"panic,omitempty"`
+	// Unstable: a second Compile() on a Compiler that had already compiled gave another result
+	// (Code/Map are then those of the later compilation)
+	Unstable bool `json:"unstable,omitempty"`
+}
+
+// compileAgain builds ONE compiler for the configuration, compiles the tree twice with it and
+// returns the second result; unstable reports whether it differs from the given first result.
+func compileAgain(name string, prog *ast.Program, code1 string, sm1 map[string]any) (string, map[string]any, bool) {
+	defer func() { _ = recover() }()
+	cc := cfgByName(name).compiler()
+	_ = cc.Compile(prog)
+	res := cc.Compile(prog)
+	var sm map[string]any
+	if res.SourceMap != nil {
+		names := res.SourceMap.Names
+		if names == nil {
+			names = []string{}
+		}
+		sm = map[string]any{"version": res.SourceMap.Version, "mappings": res.SourceMap.Mappings, "names": names}
+	}
+	b1, _ := json.Marshal(sm1)
+	b2, _ := json.Marshal(sm)
+	return res.Code, sm, res.Code != code1 || string(b1) != string(b2)
 }
 
 // compile: {"id":..,"src":[bytes],"cfgs":[names],"trace":[names]} -> the source is parsed once (default
@@ -86,7 +110,12 @@ func init() {
 			} else {
 				code, sm, perr = safeCompile(name, prog)
 			}
-			o := compiled{Cfg: name, Code: intsOf(code), Map: sm, Ops: ops, Panic: perr}
+			unstable := false
+			if perr == "" {
+				// one Compiler object compiles the same tree again: the result must not depend on it
+				code, sm, unstable = compileAgain(name, prog, code, sm)
+			}
+			o := compiled{Cfg: name, Code: intsOf(code), Map: sm, Ops: ops, Panic: perr, Unstable: unstable}
 			if perr == "" {
 				p2, tr, nerr, e0 := reparse(code)
 				o.Nerr, o.Err0, o.Tree = nerr, e0, tr
